@@ -104,6 +104,14 @@ def parseVal (s : String) : Option Val :=
   else if s == "ss" then some (.ss []) else if s == "is" then some (.is [])
   else if s == "fs" then some (.fs []) else if s == "m" then some (.m [])
   else match s.toList with
+    | 's' :: 's' :: r => (unlist (String.mk r)).map Val.ss
+    | 'i' :: 's' :: r => (((String.mk r).splitOn ",").mapM fun (x : String) => x.toInt?).map Val.is
+    | 'm' :: r =>
+      (((String.mk r).splitOn ",").mapM fun (kv : String) => match kv.splitOn "=" with
+        | [k, v] => match unhex k, unhex v with
+          | some k, some v => some (k, v)
+          | _, _ => none
+        | _ => none).map Val.m
     | 'i' :: r => (String.mk r).toInt?.map Val.i
     | 's' :: r => (unhex (String.mk r)).map Val.s
     | 'f' :: r => (unhex (String.mk r)).map Val.f
